@@ -1174,8 +1174,16 @@ func keySameRule(c *Ctx, rule string) {
 		if !ok1 || !ok2 || la.Op != token.MUL || lb.Op != token.MUL {
 			return false
 		}
-		al, ok := la.X.(*ssa.Alloc)
-		if !ok || lb.X != ssa.Value(al) {
+		var al ssa.Value
+		switch x := la.X.(type) {
+		case *ssa.Alloc:
+			al = x
+		case *ssa.FreeVar:
+			al = x // a variable of the enclosing function, read twice in this closure
+		default:
+			return false
+		}
+		if lb.X != al {
 			return false
 		}
 		// no store into the variable after the earlier of the two loads
@@ -1200,7 +1208,7 @@ func keySameRule(c *Ctx, rule string) {
 		for _, sc := range first.Block().Succs {
 			walk(sc)
 		}
-		allInstrs(al.Parent(), func(i ssa.Instruction) {
+		allInstrs(la.Parent(), func(i ssa.Instruction) {
 			st, ok := i.(*ssa.Store)
 			if !ok {
 				return
@@ -1213,7 +1221,7 @@ func keySameRule(c *Ctx, rule string) {
 				}
 				break
 			}
-			if a != ssa.Value(al) {
+			if a != al {
 				return
 			}
 			if after[st.Block()] || st.Block() == first.Block() && pointOf(st).i > pointOf(first).i {
@@ -1235,6 +1243,24 @@ func keySameRule(c *Ctx, rule string) {
 			n++
 			key := fmt.Sprintf("%s: insert#%d", safeFname(fn), n)
 			conn, isAlloc := peel(mu.Value).(*ssa.Alloc)
+			if !isAlloc {
+				// a variable shared with an enclosing function (`conn = &fileConn{…}; cache[key] = conn` inside a closure
+				// that runs under the lock): the last assignment in this block before the insert
+				if ld, ok := mu.Value.(*ssa.UnOp); ok && ld.Op == token.MUL {
+					var last ssa.Value
+					for _, ins := range mu.Block().Instrs {
+						if ins == ssa.Instruction(mu) {
+							break
+						}
+						if st, ok := ins.(*ssa.Store); ok && st.Addr == ld.X {
+							last = st.Val
+						}
+					}
+					if last != nil {
+						conn, isAlloc = peel(last).(*ssa.Alloc)
+					}
+				}
+			}
 			if !isAlloc {
 				c.r.undecided(rule, key, "the connection that is registered is not one allocated in this function: which key it remembers is not visible here", c.w.ipos(i))
 				return
@@ -1423,4 +1449,191 @@ func holderTypeOf(addr ssa.Value) *types.Named {
 func init() {
 	addRule("C06", "C06.required — in the function that assigns the Index's schema (row count), every path to a return that may be successful passes the gob Decode of the schema item (the binary decoding of the counter item), itself or in a helper all of whose possibly successful returns pass it: an absent schema or counter is never accepted as an empty index.",
 		func(c *Ctx) { requiredRule(c, "C06.required") })
+}
+
+func init() {
+	// every transaction begun explicitly by code a query reaches is ended on every path (txEndRule, rules_c06_c15.go): a read
+	// transaction leaked on an error path makes Index.Close — and with it the driver's Close, which holds the driver-wide
+	// lock — wait forever
+	const doc = "txend — every transaction that code reachable from query execution begins explicitly (DB.Begin) is ended (Rollback/Commit, directly or deferred) on every path from the successful Begin to a return: bbolt's DB.Close waits for open transactions, so a read transaction leaked on an error path makes closing the index (and the driver handle that owns it) hang."
+	addRule("C17", "C17."+doc, func(c *Ctx) {
+		if c.a.Execute != nil {
+			txEndRule(c, "C17.txend", c.w.reach(concurrentEntries(c)...))
+		}
+	})
+	addRule("C04", "C04."+doc, func(c *Ctx) {
+		if c.a.Execute != nil {
+			txEndRule(c, "C04.txend", c.w.reach(concurrentEntries(c)...))
+		}
+	})
+}
+
+// ---- C05.flushkeeps ----------------------------------------------------------------------------------------------------
+//
+// Writing an in-memory writer out does not consume it: WriteToBoltDatabase can be called for several databases, Flush
+// after it, or again after a failure, and every output must hold all rows added so far. flushKeepsRule: in the code the
+// in-memory writer's write function reaches, no element is removed from, and no map or slice is assigned to, the writer's
+// bitmap map, schema or row counter (`delete(idx.values, k)` after each Put "to halve the peak memory" makes the
+// second output an index with a full schema and no bitmaps). Mutating bitmap methods that keep the set (RunOptimize) are
+// not writes to the writer's fields and stay allowed.
+func flushKeepsRule(c *Ctx, rule string) {
+	if c.a.MemWrite == nil || c.a.MemWriterT == nil {
+		return
+	}
+	st, ok := c.a.MemWriterT.Underlying().(*types.Struct)
+	if !ok {
+		return
+	}
+	own := map[*types.Var]bool{}
+	for i := 0; i < st.NumFields(); i++ {
+		f := st.Field(i)
+		if typeIs(f.Type(), "sync", "Mutex") || typeIs(f.Type(), "sync", "RWMutex") {
+			continue
+		}
+		own[f] = true
+	}
+	fr := newFresh(c)
+	n := 0
+	for _, fn := range c.scope(c.a.MemWrite, 3) {
+		for _, e := range fr.writes(fn) {
+			switch e.Kind {
+			case "store", "mapupdate", "delete", "clear":
+			default:
+				continue
+			}
+			if e.Fresh {
+				continue
+			}
+			fs := e.fields()
+			if len(fs) == 0 || !own[fs[0]] {
+				continue
+			}
+			// a write *into* an object held by the writer (a column of the schema) is the schema rules' business; here: the
+			// writer's own containers — the first field on the path is the last one, or what is written is an element of it
+			if len(fs) > 1 {
+				continue
+			}
+			n++
+			c.r.bad(rule, fmt.Sprintf("%s: %s %s#%d", safeFname(fn), e.Kind, fs[0].Name(), n), "writing the index out changes the writer's own "+fs[0].Name()+" ("+e.Kind+"): a second output of the same writer — another database, Flush after WriteToBoltDatabase, a retry after a failure — is accepted as an index but misses what the first output consumed", []string{c.w.ipos(e.Ins)})
+		}
+	}
+	if n == 0 {
+		c.r.ok(rule, safeFname(c.a.MemWrite), "the write function leaves the writer's bitmap map, schema and row counter as they are")
+	}
+}
+
+func init() {
+	addRule("C05", "C05.flushkeeps — in the code the in-memory writer's write function reaches, nothing is removed from or assigned to the writer's own bitmap map, schema or row counter (set-preserving bitmap methods such as RunOptimize are not such writes): every output of a writer holds all rows added so far.",
+		func(c *Ctx) { flushKeepsRule(c, "C05.flushkeeps") })
+}
+
+// ---- C05.putvalue ------------------------------------------------------------------------------------------------------
+//
+// bbolt keeps the value slice handed to Bucket.Put until the transaction ends; the caller must not modify it before
+// (Bucket.Put's documentation). putValueRule: where the value of a Put in the writers is (a slice of) the contents of a
+// bytes.Buffer, no call that writes to or rewinds that buffer (Write*, ReadFrom, Reset, Truncate, or the buffer handed
+// to something as an io.Writer) can execute after the Put — a scratch buffer shared by the iterations of the write loop
+// and rewound now and then overwrites the bytes of bitmaps that are still pending in the open transaction, and they
+// come back empty or wrong without any error.
+func putValueRule(c *Ctx, rule string) {
+	n := 0
+	for _, anchor := range []*ssa.Function{c.a.MemWrite, c.a.BigFlush} {
+		if anchor == nil {
+			continue
+		}
+		for _, fn := range c.scope(anchor, 2) {
+			allInstrs(fn, func(i ssa.Instruction) {
+				put, ok := i.(*ssa.Call)
+				if !ok || calleeName(&put.Call) != boltPut || len(put.Call.Args) < 3 {
+					return
+				}
+				// the buffer the value comes from
+				v := put.Call.Args[2]
+				var buf ssa.Value
+				for k := 0; k < 8 && buf == nil; k++ {
+					switch x := v.(type) {
+					case *ssa.Slice:
+						v = x.X
+					case *ssa.Phi:
+						if len(x.Edges) > 0 {
+							v = x.Edges[0]
+						} else {
+							k = 8
+						}
+					case *ssa.Call:
+						if calleeName(&x.Call) == "(*bytes.Buffer).Bytes" {
+							buf = x.Call.Args[0]
+						}
+						k = 8
+					default:
+						k = 8
+					}
+				}
+				if buf == nil {
+					return
+				}
+				n++
+				key := fmt.Sprintf("%s: Put#%d", safeFname(fn), n)
+				// blocks that can execute after the Put
+				after := map[*ssa.BasicBlock]bool{}
+				var walk func(b *ssa.BasicBlock)
+				walk = func(b *ssa.BasicBlock) {
+					if after[b] {
+						return
+					}
+					after[b] = true
+					for _, sc := range b.Succs {
+						walk(sc)
+					}
+				}
+				for _, sc := range put.Block().Succs {
+					walk(sc)
+				}
+				var bad ssa.Instruction
+				allInstrs(fn, func(j ssa.Instruction) {
+					if bad != nil || j.Parent() != fn {
+						return
+					}
+					cc := callCommon(j)
+					if cc == nil {
+						return
+					}
+					later := after[j.Block()] || j.Block() == put.Block() && pointOf(j).i > pointOf(put).i
+					if !later {
+						return
+					}
+					name := calleeName(cc)
+					writes := false
+					if strings.HasPrefix(name, "(*bytes.Buffer).") && len(cc.Args) > 0 && cc.Args[0] == buf {
+						switch strings.TrimPrefix(name, "(*bytes.Buffer).") {
+						case "Write", "WriteString", "WriteByte", "WriteRune", "ReadFrom", "Reset", "Truncate", "Grow":
+							writes = true
+						}
+					} else {
+						for _, a := range cc.Args {
+							if mi, ok := a.(*ssa.MakeInterface); ok && mi.X == buf {
+								writes = true // handed on as an io.Writer (bm.WriteTo(&buf), gob.NewEncoder(&buf))
+							}
+						}
+					}
+					if writes {
+						bad = j
+					}
+				})
+				if bad != nil {
+					c.r.bad(rule, key, "the value handed to Put is part of a bytes.Buffer that is written to or rewound again afterwards ("+shortName(calleeName(callCommon(bad)))+"): bbolt keeps the slice until the transaction ends, so a later bitmap overwrites the bytes of one that is still pending — it comes back empty or wrong after the commit, with no error", []string{c.w.ipos(put)}, c.w.ipos(bad))
+				} else {
+					c.r.ok(rule, key, "the buffer the value comes from is not written again after the Put", c.w.ipos(put))
+				}
+			})
+		}
+	}
+	if n == 0 {
+		c.r.ok(rule, "writers", "no Put in the writers takes its value from a bytes.Buffer that could be reused")
+	}
+}
+
+func init() {
+	addRule("C05", "C05.putvalue — where the value of a Put in the writers is (a slice of) the contents of a bytes.Buffer, nothing that writes to or rewinds that buffer can execute after the Put: bbolt keeps the value slice until the transaction ends.",
+		func(c *Ctx) { putValueRule(c, "C05.putvalue") })
 }
